@@ -157,6 +157,12 @@ func oneSeed(self string, p *props.Property, repo, root, dir string) selfRow {
 	if filepath.Base(filepath.Dir(dir)) == "_regress" {
 		patch = filepath.Join(dir, "fix.diff")
 		reverse = true
+		// a fix whose lines were changed again by a later commit cannot be reversed textually; dev/genregress.py then stores
+		// the three-way revert against the tree it ran on as revert.diff (applied forward)
+		if _, err := os.Stat(filepath.Join(dir, "revert.diff")); err == nil {
+			patch = filepath.Join(dir, "revert.diff")
+			reverse = false
+		}
 		var rm struct {
 			Rule string `json:"rule"`
 		}
